@@ -15,7 +15,8 @@ TRUSTED = ["Coq 8.16.1 kernel + vm_compute + primitive floats",
            "harness/c06.py"]
 RULE = ("all (y_true, y_pred) in {0,1}^2 sequences of length n (n=4 quick / 6 thorough) x parameter grid, plus random piecewise-stationary sequences of "
         "100-160 pairs; every subset of tracked rates, subsample in {1,2,3}, burn_in small, num_mc small, under np.random.seed(f(case, step)) before every update. "
-        "Non-trivial: the trace contains a warning or a drift; distinct by content.")
+        "Non-trivial: the trace contains a warning or a drift; distinct by content."
+        " Also: regimes (decay, burn-in) in which decisions depend on the rates; a no-burn-in family whose first warning falls on stream index 0; round_val 0; labels as Python / numpy booleans; every simulated sample checked against the percentile model.")
 SHARD = 60
 RATES = ["tpr", "tnr", "ppv", "npv"]
 BK = ("lb_warn", "ub_warn", "lb_detect", "ub_detect")
